@@ -24,4 +24,18 @@ PROPS = {
             "recursion depth within the stack budget is not modelled",
         ],
     },
+    "C09": {
+        "suites": ["lexer"],
+        "assumptions": [
+            "Unicode classification (is_alphabetic / is_alphanumeric / is_whitespace) and grapheme boundaries are parameters of the model; the harness ships the real std / unicode-segmentation answers per input",
+            "model scan/filterToks tied to tokenizer.rs by op `tok` on all strings up to a length bound over a class-representative alphabet and on random longer Unicode texts",
+        ],
+    },
+    "C10": {
+        "suites": ["lexer"],
+        "assumptions": [
+            "the two line-break tables and the keyword table are regenerated from tokenizer.rs / token.rs on every run and the table obligations re-decided",
+            "the full render/tokenize law is evaluated on the implementation (search), its unbounded proof is pending",
+        ],
+    },
 }
